@@ -39,7 +39,7 @@ N = {'quick': 1200, 'thorough': 80000}
 
 LEAVES = ['role:admin', 'role:member', 'role:x', 'user_id:%(user_id)s', 'project_id:%(project_id)s', 'is_admin:True',
           'system_scope:all', 'system:all', 'system.all:True', 'project.id:%(project_id)s', 'domain.id:d1', '@', '!',
-          'user.domain.id:%(a.b)s', 'roles:admin', 'user.id:u1', "'u1':%(user_id)s", 'is_admin:False', 'project.domain.id:dd',
+          'user.domain.id:%(a.b)s', 'roles:admin', 'project_id:%(target.project.id)s', 'after-nested:%(a.z)s', "'n':%(target.name)s", 'user.id:u1', "'u1':%(user_id)s", 'is_admin:False', 'project.domain.id:dd',
           'system_scope:%(scope)s', 'user_id:%(a.c.d)s']
 _SAMPLES = []
 
@@ -89,8 +89,11 @@ def gen_case(rnd):
         rules['alias:x'] = 'rule:svc:a' if 'svc:a' in rules else 'rule:helper'
     target = None
     if rnd.random() < 0.5:
-        target = {'user_id': rnd.choice(['u1', 'u2']), 'project_id': rnd.choice(['p1', 'p2']), 'scope': rnd.choice(['all', 'none']),
-                  'a': {'b': 'default', 'c': {'d': rnd.choice(['u1', 1])}}}
+        items = [('user_id', rnd.choice(['u1', 'u2'])), ('project_id', rnd.choice(['p1', 'p2'])), ('scope', rnd.choice(['all', 'none'])),
+                 ('a', {'b': 'default', 'c': {'d': rnd.choice(['u1', 1]), 'e': {}}, 'z': 'after-nested'}),
+                 ('target', {'project': {'id': 'p1'}, 'name': 'n'}), ('empty', {})]
+        rnd.shuffle(items)                      # nested mappings before, between and after plain keys
+        target = dict(items[:rnd.randint(3, len(items))])
     return dict(rules=rules, token=tok, sample=sample, target=target, is_admin=rnd.random() < 0.5,
                 rule=rnd.choice([None, None, None, 'svc:a', 'ghost:x', 'helper', 'alias:x']), fmt=rnd.choice(['json', 'yaml']))
 
